@@ -62,6 +62,11 @@ func (p *Paragraph) WriteTo(out io.Writer) error {
 		/* one trailing newline ends the last line (the reader always adds
 		 * it to multi-line values); it is not an empty line of its own */
 		value = strings.TrimSuffix(value, "\n")
+		if strings.HasPrefix(value, " ") || strings.HasPrefix(value, "\t") {
+			/* an indented first line would lose its indentation next to
+			 * the key; start the value on the next line instead */
+			value = "\n" + value
+		}
 		value = strings.Replace(value, "\n", "\n ", -1)
 		/* every empty line becomes " .", also in runs and at the end */
 		for strings.Contains(value, "\n \n") {
